@@ -1606,6 +1606,7 @@ def run(ctx):
     policy = detect_policy()
     ctx.log('walker queries the grid per node with the inset of the %s level' % ('queried' if policy == 'level' else 'last seeded'))
 
+    empty_levels_case(ctx)
     # lattice worlds
     items = []
     for row in catalogue(ctx.tier):
@@ -1647,6 +1648,48 @@ def run(ctx):
     return ctx.finish('model_checking',
                       'TLC: Seeder.tla exhaustively over the lattice catalogue x all interruption points x all throttle '
                       'decisions; distinct = distinct (world, interruption plan, throttle decisions) replays and recorded executions')
+
+
+def empty_levels_case(ctx):
+    """A task whose levels all lie beyond the levels of its grid (LevelsList.for_grid / LevelsRange.for_grid drop them, e.g.
+    one seed for grids of different depth): the selected tile set is empty - the run has to end without creating anything and
+    the tasks after it have to be seeded (CompleteRunExact for Levels = {})."""
+    import contextlib
+    import io
+    import mapproxy.seed.seeder as S
+    handed = []
+
+    class Pool(object):
+        def __init__(self, task, worker_class, size=2, dry_run=False, progress_logger=None):
+            pass
+
+        def process(self, tiles, progress):
+            handed.append([tuple(t) for t in tiles])
+
+        def stop(self, force=False):
+            pass
+
+    empty = lattice_world('g2-nolevels', 'G2', ('bbox', [(90, 50, 410, 330)]), [], (1, 1), 0, 'EPSG:3857')
+    after = lattice_world('g2-leaf', 'G2', ('bbox', [(250, 250, 390, 390)]), [2], (1, 1), 0, 'EPSG:3857')
+    tasks = [empty.task(), after.task()]
+    saved = S.TileWorkerPool
+    S.TileWorkerPool = Pool
+    out = io.StringIO()
+    try:
+        with contextlib.redirect_stdout(out):
+            S.seed(tasks, concurrency=1, dry_run=False, skip_geoms_for_last_levels=0, progress_logger=None)
+        err = None
+    except Exception as ex:
+        err = '%s: %s' % (type(ex).__name__, ex)
+    finally:
+        S.TileWorkerPool = saved
+    ctx.count(('empty-levels', err, len(handed)))
+    if err:
+        ctx.violation({'kind': 'seed-raises', 'cause': 'task-without-levels'},
+                      'a seed task whose levels all lie beyond the levels of its grid makes seed() raise %s; the tasks after it are not '
+                      'seeded (%d hand-overs)' % (err, len(handed)), {'levels': [], 'grid': 'G2'})
+    elif not handed:
+        raise tlc.MachineryError('vacuity: the task after the empty one handed nothing over')
 
 
 def replay(ctx, data):
